@@ -399,6 +399,11 @@ def body_date_prop(I, X, prop="last_modified", month=2, aware=True):
     valid_day(X, y, month, d)
     f = (y, month, d, X.int("hh", 0, 23), X.int("mi", 0, 59), X.int("ss", 0, 59))
     tz = dtm.timezone.utc if aware else None
+    if aware == "custom-zero":
+        # a zero-offset tzinfo that is not datetime.timezone (zoneinfo / pytz / dateutil style)
+        from harness.c06 import ZeroTz
+
+        tz = ZeroTz()
     value = SymDatetime(f, tz) if X.symbolic else dtm.datetime(*f, tzinfo=tz)
     resp = Response()
     I.setattr(resp, prop, value)
@@ -448,7 +453,8 @@ def obligations(tier, seed):
         out.append({"name": f"mimetype_params[{key}]", "body": "body_mimetype_params", "params": {"key": key, "n": 2},
                     "opts": {"budget_s": 600, "ctx": ctx}})
     for prop in ("date", "last_modified", "expires", "retry_after"):
-        for month, aware in ([(2, True), (11, False)] if quick else [(m, a) for m in (1, 2, 6, 12) for a in (True, False)]):
+        for month, aware in ([(2, True), (11, False)] + ([(5, "custom-zero")] if prop in ("expires", "retry_after") else []) if quick else
+                             [(m, a) for m in (1, 2, 6, 12) for a in (True, False, "custom-zero")]):
             out.append({"name": f"date_prop[{prop},month={month},aware={aware}]", "body": "body_date_prop", "params": {"prop": prop, "month": month, "aware": aware},
                         "opts": {"budget_s": 900, "ctx": {"bv_ints": True, "max_digits": 6}}})
     for prop in ("content_length", "age", "access_control_max_age", "retry_after"):
